@@ -79,7 +79,13 @@ func localDefs(info *types.Info, body ast.Node) map[types.Object]ast.Expr {
 					}
 				}
 			} else {
-				for _, l := range s.Lhs {
+				// a, b := helper(): remembered so that rootObj can look through a repository
+				// helper that merely hands out fields (multiDefs, util_inline.go)
+				var mcall *ast.CallExpr
+				if len(s.Rhs) == 1 {
+					mcall, _ = ast.Unparen(s.Rhs[0]).(*ast.CallExpr)
+				}
+				for i, l := range s.Lhs {
 					if id, ok := l.(*ast.Ident); ok {
 						obj := info.Defs[id]
 						if obj == nil {
@@ -87,6 +93,9 @@ func localDefs(info *types.Info, body ast.Node) map[types.Object]ast.Expr {
 						}
 						if obj != nil {
 							count[obj] += 2
+							if mcall != nil && s.Tok == token.DEFINE {
+								multiDefs[obj] = multiDef{mcall, i}
+							}
 						}
 					}
 				}
